@@ -175,14 +175,59 @@ type c19Hit struct {
 	Detail    string
 }
 
+// c19TableKey: the table key under which a hit in fn is admitted. Normally the key of fn itself.
+// A site that sits in an extracted helper (unexported, only static callers — Program.inlinable) of a
+// triaged function belongs to that function: when fn has no entry of its own, and every static
+// caller resolves (transitively, bounded) to one and the same table entry, that entry's key is used.
+// The per-entry site count is taken over the function together with its helpers, so a site *added*
+// in a helper is still reported as a new site.
+func c19TableKey(p *Program, table map[string]c19Entry, fn *ssa.Function) string {
+	own := c19FnKey(fn)
+	if _, ok := table[own]; ok {
+		return own
+	}
+	var resolve func(f *ssa.Function, d int, seen map[*ssa.Function]bool) (string, bool)
+	resolve = func(f *ssa.Function, d int, seen map[*ssa.Function]bool) (string, bool) {
+		for f.Parent() != nil {
+			f = f.Parent()
+		}
+		k := c19FnKey(f)
+		if _, ok := table[k]; ok {
+			return k, true
+		}
+		if d >= 3 || seen[f] || !p.inlinable(f) {
+			return "", false
+		}
+		seen[f] = true
+		defer delete(seen, f)
+		key := ""
+		for _, cl := range p.callersOf(f) {
+			ck, ok := resolve(cl.Fn, d+1, seen)
+			if !ok || (key != "" && ck != key) {
+				return "", false
+			}
+			key = ck
+		}
+		return key, key != ""
+	}
+	if k, ok := resolve(fn, 0, map[*ssa.Function]bool{}); ok {
+		return k
+	}
+	return own
+}
+
 func c19Admit(c *Ctx, table map[string]c19Entry, hits []c19Hit, what string) {
 	count := map[string]int{}
+	keyOf := map[*ssa.Function]string{}
 	for _, h := range hits {
-		count[c19FnKey(h.Fn)]++
+		if _, ok := keyOf[h.Fn]; !ok {
+			keyOf[h.Fn] = c19TableKey(c.P, table, h.Fn)
+		}
+		count[keyOf[h.Fn]]++
 	}
 	s := c19ScopeOf(c.P)
 	for _, h := range hits {
-		k := c19FnKey(h.Fn)
+		k := keyOf[h.Fn]
 		o := c.Ob(h.Fn, h.Construct, h.Site, c.rule.Statement)
 		o.Note(h.Detail)
 		e, ok := table[k]
